@@ -35,6 +35,7 @@ func init() {
 			need(m, &out, "multi_section_units", 100)
 			need(m, &out, "exhaustive_split_streams", 1000)
 			need(m, &out, "long_streams", 6)
+			need(m, &out, "streams_with_giant_units", 12)
 			need(m, &out, "streams_through_a_plain_reader", 300)
 			need(m, &out, "streams_after_an_initial_rewind", 150)
 			need(m, &out, "pmt_units_straddling_their_pat", 300)
@@ -245,7 +246,7 @@ func runC02(c *mon.Ctx) {
 			continue
 		}
 		r := c.Rng("streams", i)
-		m := gen.RandomModel(r, gen.ModelOpts{MaxPES: 3, MaxPMT: 3, MaxSI: 3, MaxUnits: 4, ReservedRnd: true, RichAF: i%3 == 0})
+		m := gen.RandomModel(r, gen.ModelOpts{MaxPES: 3, MaxPMT: 3, MaxSI: 3, MaxUnits: 4, ReservedRnd: true, RichAF: i%3 == 0, Scrambled: i%5 == 1, SharedPMTPID: i%5 == 2})
 		s := m.Build(r)
 		var run *DemuxRun
 		if i%4 == 3 {
@@ -339,6 +340,45 @@ func runC02(c *mon.Ctx) {
 		checkStreamDelivery(c, "C02", "straddle", i, s, m, run, true)
 		c.Count("pmt_units_straddling_their_pat")
 		c.Case(mon.HashBytes("c02straddle", s.Bytes), true)
+	}
+	// large units: PES of a thousand packets and more, and bounded PES whose PES_packet_length sits at the top of its 16 bits
+	ng := c.Pick(16, 200)
+	for i := int64(0); i < ng; i++ {
+		if !c.Mine("giant", i) {
+			continue
+		}
+		r := c.Rng("giant", i)
+		var big []*gen.Unit
+		switch i % 4 {
+		case 0: // bounded, PES_packet_length 65525..65535 (3 flag bytes + 5 PTS bytes + data)
+			for k := 0; k < 3; k++ {
+				l := 65535 - r.IntN(11)
+				if k == 0 {
+					l = 65535 - int(i/4)%11
+				}
+				big = append(big, gen.NewPESUnit(r, 0x100, 1+k, gen.PESOpts{DataLen: l - 8, WithPTS: true}))
+			}
+		default: // unbounded, 1023 / 1024 / 1025 / 2048+ packets
+			n := []int{1023, 1024, 1025, 2048 + r.IntN(3000)}[(int(i)+int(i/4))%4]
+			big = append(big, gen.NewPESUnit(r, 0x100, 1, gen.PESOpts{DataLen: n*184 - 14 - r.IntN(184), Unbounded: true, WithPTS: true}))
+			big = append(big, gen.NewPESUnit(r, 0x100, 2, gen.PESOpts{DataLen: 300 + r.IntN(3000), Unbounded: true, WithPTS: true}))
+		}
+		var small []*gen.Unit
+		for k := 0; k < 4; k++ {
+			small = append(small, gen.NewPESUnit(r, 0x101, 10+k, gen.PESOpts{DataLen: 50 + r.IntN(900), WithPTS: k%2 == 0}))
+		}
+		counts := map[uint16]int{}
+		for _, u := range append(append([]*gen.Unit{}, big...), small...) {
+			u.PlanChunks(gen.RandomChunks(r, len(u.Payload), 0, 0, false))
+			counts[u.PID] += len(u.Plan)
+		}
+		per := map[uint16][]*gen.Unit{0x100: big, 0x101: small}
+		s := gen.Mux(per, gen.RandomOrder(r, counts, []uint16{0x100, 0x101}, nil), nil)
+		run := RunDemux(s.Bytes, baseCfg("data"))
+		checkStreamDelivery(c, "C02", "giant", i, s, nil, run, false)
+		c.Count("streams_with_giant_units")
+		c.Max("largest_unit_packets", int64(len(big[0].Plan)))
+		c.Case(mon.HashBytes("c02giant", s.Bytes[:3760]), true)
 	}
 	// long streams: thousands of packets, continuity counters wrapping many times, many units per PID
 	nlong := c.Pick(6, 80)
